@@ -7,7 +7,9 @@
       repository_impl.go over the abstract index; [Refused]: stopped by the rule-set
       processor) after the history [ops]; [fx] says which of the repairs of
       C06-F3 / F4 / F5 the code contains: [all_fix] is the tree as it is now
-      (fix: commits 2d9cd1f, 003095f, f6ce52b), [no_fix] the pinned commit;
+      (fix: commits 2d9cd1f, 003095f, f6ce52b), [no_fix] the tree as it is with
+      these three repairs reverted (NOT the pinned commit: the other tree.go repairs
+      20f92b3, e897fef, 88da16a, 16cf34b stay in place in every variant);
     - [current ops] the rule sets that exist after [ops] according to the
       specification: a creation / update that can be applied ([spec_ok]: all path
       expressions valid — which includes compatible wildcard names for equal
@@ -56,7 +58,7 @@ Proof. exact now_history_equals_fresh. Qed.
 Print Assumptions C06_history_equals_fresh.
 
 (** the coarse form, for every combination of the repairs, in particular the
-    pinned commit ([no_fix]: all six guards) *)
+    variant [no_fix] (the repairs of C06-F3/F4/F5 reverted: all six guards) *)
 Theorem C06_history_equals_fresh_any : forall fx ops,
   wf_history ops = true -> no_guard_fx fx ops = true ->
   index (run fx ops) = index (fresh fx (current ops)).
@@ -117,23 +119,34 @@ Theorem C06_same_source_constraint : forall ops,
 Proof. exact now_node_has_one_source. Qed.
 Print Assumptions C06_same_source_constraint.
 
-(** ** the open findings C06-F1, C06-F2: each guard fires on a history on which
-    the property fails, for the tree as it is now *)
+(** ** the open findings C06-F1, C06-F2, for the code AS IT IS NOW (repository
+    behind the processor, [prun true all_fix]): on the witness both forms of the
+    guard fire — the history-global one ([guard_F1] / [guard_F2], hypothesis of
+    [C06_history_equals_fresh_any]) and the per-source one the main theorems and the
+    evaluator use ([pdirty ops <> []]) — and the property fails *)
 
 Theorem C06_F1_refuted : exists ops meth path,
-  wf_history ops = true /\ guard_F1 ops = true /\
-  m_answer (run all_fix ops) meth path <> m_answer (fresh all_fix (current ops)) meth path.
-Proof. exists w_F1, 0, "/x"%string. destruct w_F1_now as (A & B & C & D). rewrite C, D. repeat split; auto. discriminate. Qed.
+  pwf ops = true /\ guard_F1 ops = true /\ pdirty ops <> [] /\
+  m_answer (prun true all_fix ops) meth path <> m_answer (fresh all_fix (pcurrent ops)) meth path.
+Proof.
+  exists w_F1, 0, "/x"%string. destruct w_F1_f6 as (A & B & C & D & E). rewrite C, D, E.
+  repeat split; auto; discriminate.
+Qed.
 Print Assumptions C06_F1_refuted.
 
 Theorem C06_F2_refuted : exists ops meth path,
-  wf_history ops = true /\ guard_F2 ops = true /\
-  m_answer (run all_fix ops) meth path <> m_answer (fresh all_fix (current ops)) meth path.
-Proof. exists w_F2, 0, "/y"%string. destruct w_F2_now as (A & B & C & D). rewrite C, D. repeat split; auto. discriminate. Qed.
+  pwf ops = true /\ guard_F2 ops = true /\ pdirty ops <> [] /\
+  m_answer (prun true all_fix ops) meth path <> m_answer (fresh all_fix (pcurrent ops)) meth path.
+Proof.
+  exists w_F2, 0, "/y"%string. destruct w_F2_f6 as (A & B & C & D & E). rewrite C, D, E.
+  repeat split; auto; discriminate.
+Qed.
 Print Assumptions C06_F2_refuted.
 
-(** ** the repaired findings C06-F3, F4, F5 (and F6, below): witnesses for the pinned commit
-    ([no_fix]; F3 and F5 on the transcribed tree: node compression, key names) *)
+(** ** the repaired findings: witnesses for the model variant BEFORE the named commit.
+    C06-F3 (before 2d9cd1f), C06-F4 (before 003095f), C06-F5 (before f6ce52b): variant
+    [no_fix] (F3 and F5 on the transcribed tree: node compression, key names);
+    C06-F6 (before 5e2c60e): [prun false], the repository without the processor's check *)
 
 Theorem C06_F3_pinned_refuted : exists ops meth path,
   wf_history ops = true /\ guard_F3 ops = true /\
@@ -149,7 +162,8 @@ Print Assumptions C06_F4_pinned_refuted.
 
 (** the same defect could end in a Go panic instead of an error *)
 Theorem C06_F4_pinned_panic : exists ops s,
-  guard_F4 ops = true /\ snd (t_step no_fix (t_run ops) (Delete s)) = Some EPanic.
+  wf_history (ops ++ [Delete s]) = true /\ guard_F4 ops = true /\
+  snd (t_step no_fix (t_run ops) (Delete s)) = Some EPanic.
 Proof. exists w_F4p, 0. exact w_F4p_ok. Qed.
 Print Assumptions C06_F4_pinned_panic.
 
@@ -159,13 +173,17 @@ Theorem C06_F5_pinned_refuted : exists ops meth path,
 Proof. exists w_F5, 0, "/a/1"%string. destruct w_F5_ok as (A & B & C & D). rewrite C, D. repeat split; auto. discriminate. Qed.
 Print Assumptions C06_F5_pinned_refuted.
 
-(** C06-F6 (repaired by 5e2c60e in the processor): the bare repository [run], which
-    a rule set with a duplicate id still reaches in this model, loses the unchanged
-    twin; with the processor's check the same history passes ([C06_F6_repaired_example]) *)
+(** C06-F6 (repaired by 5e2c60e in the processor): without the check ([prun false],
+    which is [run]) a rule set with a duplicate id reaches the repository, which
+    loses the unchanged twin; with the check the same history passes
+    ([C06_F6_repaired_example]) *)
 Theorem C06_F6_pinned_refuted : exists ops meth path,
   wf_history ops = true /\ guard_dupid ops = true /\
-  m_answer (run all_fix ops) meth path <> m_answer (fresh all_fix (current ops)) meth path.
-Proof. exists w_F6_now, 0, "/p"%string. destruct w_F6_now_ok as (A & B & C & D). rewrite C, D. repeat split; auto. discriminate. Qed.
+  m_answer (prun false all_fix ops) meth path <> m_answer (fresh all_fix (current ops)) meth path.
+Proof.
+  exists w_F6_now, 0, "/p"%string. rewrite prun_false. destruct w_F6_now_ok as (A & B & C & D). rewrite C, D.
+  repeat split; auto. discriminate.
+Qed.
 Print Assumptions C06_F6_pinned_refuted.
 
 (** with the repairs the same witnesses pass (models with [all_fix]) *)
@@ -184,7 +202,10 @@ Print Assumptions C06_repaired_examples.
     the repaired findings (node boundary in front of ':', a path listed twice, a
     renamed path parameter next to a kept node); (3) a history that goes through
     C06-F1 and C06-F2 (the history-global guards fire) and recovers by deleting and
-    re-creating the rule sets *)
+    re-creating the rule sets; (4) the hypotheses [pwf] / [pdirty] of the main
+    ([C06_F6_repaired_*]) statements hold for all three, and for a history in which
+    two updates with a duplicate rule id are refused between accepted operations and
+    leave no trace *)
 Example C06_nonvacuous :
   (wf_history w_plain = true /\ guard_dupid w_plain = false /\ dirty w_plain = [] /\
    length (index (run all_fix w_plain)) = 3 /\ m_answer (run all_fix w_plain) 1 "/b/x" = Some 10) /\
@@ -194,7 +215,13 @@ Example C06_nonvacuous :
    m_answer (run all_fix w_now) 0 "/d" = Some 1 /\ m_answer (run all_fix w_now) 0 "/k/7" = Some 0) /\
   (wf_history w_reset = true /\ guard_dupid w_reset = false /\ guard_F1 w_reset = true /\ guard_F2 w_reset = true /\
    dirty (firstn 4 w_reset) = [0; 1; 0] /\ dirty w_reset = [] /\
-   length (index (run all_fix w_reset)) = 2 /\ m_answer (run all_fix w_reset) 0 "/x" = Some 2).
+   length (index (run all_fix w_reset)) = 2 /\ m_answer (run all_fix w_reset) 0 "/x" = Some 2) /\
+  (pwf w_plain = true /\ pdirty w_plain = [] /\ pwf w_reset = true /\ pdirty w_reset = [] /\
+   pwf w_now = true /\ pdirty w_now = []) /\
+  (pwf w_refused = true /\ pdirty w_refused = [] /\ guard_dupid w_refused = true /\
+   length (pcurrent w_refused) = 1 /\ length (index (prun true all_fix w_refused)) = 3 /\
+   m_answer (prun true all_fix (firstn 2 w_refused)) 0 "/p" = Some 0 /\
+   m_answer (prun true all_fix w_refused) 0 "/p" = Some 1 /\ m_answer (prun true all_fix w_refused) 0 "/r" = None).
 Proof. vm_compute. repeat split; reflexivity. Qed.
 Print Assumptions C06_nonvacuous.
 
@@ -278,8 +305,10 @@ Theorem C06_tree_captures_equal_fresh : forall ops,
 Proof. exact tree_captures_equal_fresh. Qed.
 Print Assumptions C06_tree_captures_equal_fresh.
 
-(** no operation of any history ends in a Go run-time panic of the tree code (cf.
-    [C06_F4_pinned_panic] for the pinned commit) *)
+(** no creation / update / deletion of any history ends in one of the panics the
+    transcription models — the slice bound in delNode (former C06-F4, cf.
+    [C06_F4_pinned_panic] for the variant before 003095f) and fuel exhaustion;
+    lookups, captures ([found.wildcardKeys[i]]) and nil dereferences are not covered *)
 Theorem C06_tree_never_panics : forall ops o,
   snd (t_step all_fix (t_run_fx all_fix ops) o) <> Some EPanic.
 Proof. exact tree_never_panics. Qed.
@@ -339,6 +368,30 @@ Theorem C06_F6_repaired_tree_history_equals_fresh : forall ops,
     t_find_rule false (index (t_run_fx all_fix (fresh_ops (pcurrent ops)))) path conditions.
 Proof. exact f6_tree_history_equals_fresh. Qed.
 Print Assumptions C06_F6_repaired_tree_history_equals_fresh.
+
+Theorem C06_F6_repaired_lookups_equal_fresh : forall ops,
+  pwf ops = true -> pdirty ops = [] ->
+  forall pinned_lookup path (conditions : route -> bool),
+    find_rule pinned_lookup (index (prun true all_fix ops)) path conditions =
+    find_rule pinned_lookup (index (fresh all_fix (pcurrent ops))) path conditions.
+Proof. exact f6_lookups_equal_fresh. Qed.
+Print Assumptions C06_F6_repaired_lookups_equal_fresh.
+
+Theorem C06_F6_repaired_same_source_constraint : forall ops,
+  pwf ops = true ->
+  forall q n x y, get (index (prun true all_fix ops)) q = Some n -> In x (vals n) -> In y (vals n) -> rt_src x = rt_src y.
+Proof. exact f6_node_has_one_source. Qed.
+Print Assumptions C06_F6_repaired_same_source_constraint.
+
+(** key names and captured values (findNode as transcribed WITH them in Radix/Tree.v,
+    run on the tree of C06/Tree.v) *)
+Theorem C06_F6_repaired_tree_captures_equal_fresh : forall ops,
+  pwf ops = true -> pdirty ops = [] ->
+  forall path (conditions : Radix.Spec.matcher route),
+    Radix.Tree.tree_find true true true conditions (emb (index (t_prun true all_fix ops))) path =
+    Radix.Tree.tree_find true true true conditions (emb (index (t_run_fx all_fix (fresh_ops (pcurrent ops))))) path.
+Proof. exact f6_tree_captures_equal_fresh. Qed.
+Print Assumptions C06_F6_repaired_tree_captures_equal_fresh.
 
 (** the witness of C06-F6 passes with the repair *)
 Example C06_F6_repaired_example :
